@@ -1542,3 +1542,225 @@ def c11_handle_release(env):
 
 
 REGISTRY["C11"].append(c11_handle_release)
+
+
+# ======================================================================================
+# C06: transfer splitting by FrameEncoder::encode_transfer
+# ======================================================================================
+
+
+def c06_transfer_split(env):
+    o = Obligation("c06_transfer_split", "C06")
+    o.desc = "FrameEncoder::encode_transfer: the bytes written are frames of header + performative + payload chunk; every frame but the last is exactly the frame size (so the transport's re-chunking cuts at frame boundaries), the last at most; the chunks add up to the payload; `more` is set on all but the last, which keeps the caller's; delivery-id, delivery-tag and message-format appear on the first frame only"
+    fn = env.fn(r"^amqp::<impl at [^>]*>::encode_transfer$")
+    hdr = env.fn(r"^write_header$")
+    o.functions = [fn.name, hdr.name + " (modelled as: appends 4 bytes)"]
+    o.bounds = ["frame body size B and payload length symbolic, 16 <= B < 2^16, payload <= 2*B (up to 5 frames; the middle-frame loop unrolled 4 times); every performative encoding of symbolic length 1..B/2"]
+    o.assumes = ["the encoded transfer performative is at most half the frame body (it is a few dozen bytes unless the delivery state carries a large error description; max-frame-size is at least 512)", "BytesMut/Bytes len, clear, split_to, put per their documented contracts", "setting more=true does not shrink the performative's encoding; clearing delivery-id/tag/format/settled/rcv-settle-mode does not grow it"]
+    ex = env.executor(max_visits=5)
+    B = BV64("frame_body_size")
+    PL = BV64("payload.len")
+    orig_more = z3.Bool("transfer.more")
+    P = []
+    T = mir.Agg("transfer")
+    f_more = env.fidx("Transfer", "more")
+    T[f_more] = orig_more
+    opt = {}
+    for fld in ("delivery_id", "delivery_tag", "message_format"):
+        a = mir.Agg(fld)
+        opt[fld] = z3.BitVec(f"transfer.{fld}.is_some", 64)
+        a["#d"] = opt[fld]
+        T[env.fidx("Transfer", fld)] = a
+
+    def buf_of(ex_, st, v):
+        while isinstance(v, mir.Ref):
+            cont, key = ex_.resolve(st, list(v.path))
+            v2 = cont.get(key)
+            if isinstance(v2, mir.Ref):
+                v = v2
+            else:
+                return v2
+        return v
+
+    def m_new(ex_, st, callee, args, argvals, dty):
+        a = mir.Agg("BytesMut")
+        a[0] = z3.BitVecVal(0, 64)
+        a["gen"] = None
+        return a
+
+    def m_writer(ex_, st, callee, args, argvals, dty):
+        a = mir.Agg("writer")
+        a[0] = argvals[0]
+        return a
+
+    def m_ser_from(ex_, st, callee, args, argvals, dty):
+        a = mir.Agg("serializer")
+        a[0] = argvals[0]
+        return a
+
+    def m_serialize(ex_, st, callee, args, argvals, dty):
+        ser = buf_of(ex_, st, argvals[1])
+        wr = ser[0]
+        b = buf_of(ex_, st, wr[0])
+        k = len(st.locals["@world"]["snaps"])
+        while len(P) <= k:
+            P.append(BV64(f"performative{len(P)}.len"))
+        b[0] = b[0] + P[k]
+        b["gen"] = k
+        tr = buf_of(ex_, st, argvals[0])
+        snap = {"more": tr[f_more], **{fld: tr[env.fidx("Transfer", fld)]["#d"] for fld in opt}}
+        st.locals["@world"]["snaps"] = st.locals["@world"]["snaps"] + (snap,)
+        r = mir.Agg("Result")
+        r["#d"] = z3.BitVec(f"serialize.result#{ex_.ctx.n}", 64)
+        ex_.ctx.n += 1
+        return r
+
+    def m_len(ex_, st, callee, args, argvals, dty):
+        return buf_of(ex_, st, argvals[0])[0]
+
+    def m_clear(ex_, st, callee, args, argvals, dty):
+        b = buf_of(ex_, st, argvals[0])
+        b[0] = z3.BitVecVal(0, 64)
+        return mir.Agg("unit")
+
+    def m_split(ex_, st, callee, args, argvals, dty):
+        b = buf_of(ex_, st, argvals[0])
+        n = argvals[1]
+        st.obligations.append(("split_to within the payload", z3.ULE(n, b[0]), list(st.cond)))
+        b[0] = b[0] - n
+        a = mir.Agg("Bytes")
+        a[0] = n
+        return a
+
+    def seg(st, kind, length, gen=None):
+        w = st.locals["@world"]
+        w["segs"] = w["segs"] + ((kind, length, gen),)
+
+    def m_header(ex_, st, callee, args, argvals, dty):
+        seg(st, "H", z3.BitVecVal(4, 64))
+        return mir.Agg("unit")
+
+    def m_put(ex_, st, callee, args, argvals, dty):
+        src = buf_of(ex_, st, argvals[1])
+        kind = "P" if ("&[u8]" in callee or "put::<BytesMut>" in callee) else "D"
+        seg(st, kind, src[0], src.get("gen") if isinstance(src, mir.Agg) else None)
+        return mir.Agg("unit")
+
+    ex.models = [
+        (r"^BytesMut::new$", m_new),
+        (r"BufMut>::writer$", m_writer),
+        (r"Serializer<.*> as From<.*>>::from$", m_ser_from),
+        (r"Transfer as Serialize>::serialize::", m_serialize),
+        (r"^BytesMut::len$|^bytes::Bytes::len$", m_len),
+        (r"^BytesMut::clear$", m_clear),
+        (r"^bytes::Bytes::split_to$", m_split),
+        (r"^write_header$", m_header),
+        (r"BytesMut as Deref>::deref$", lambda ex_, st, callee, args, argvals, dty: argvals[0]),
+        (r"as Index<RangeFull>>::index$", lambda ex_, st, callee, args, argvals, dty: argvals[0]),
+        (r"BytesMut as BufMut>::put::<", m_put),
+    ]
+    enc = mir.Agg("encoder")
+    enc[env.fidx("FrameEncoder", "max_frame_body_size")] = B
+    pay = mir.Agg("payload")
+    pay[0] = PL
+    world = mir.Agg("world")
+    world["segs"] = ()
+    world["snaps"] = ()
+    dst = mir.Agg("dst")
+    dst[0] = z3.BitVecVal(0, 64)
+    paths = ex.run(fn, {"_1": mir.Ref(("@enc",), False), "@enc": enc, "_2": mir.Ref(("@dst",), True), "@dst": dst, "_4": T, "_5": pay, "@world": world})
+    hyp = ex.assumptions + [z3.UGE(B, 16), z3.ULT(B, 1 << 16), z3.ULE(PL, 2 * B)] + [z3.ULE(opt[f], 1) for f in opt]
+
+    def phyp():
+        h = [z3.And(z3.UGE(p, 1), z3.ULE(p, z3.LShR(B, 1))) for p in P]
+        # monotonicity of the performative encoding (an assumption about the serializer):
+        # #1 = #0 with more:=true (cannot shrink); #2 = #1 with first-frame fields cleared (cannot grow);
+        # #3 = #2 with more:=caller's (cannot grow)
+        if len(P) > 1:
+            h.append(z3.UGE(P[1], P[0]))
+        if len(P) > 2:
+            h.append(z3.ULE(P[2], P[1]))
+        if len(P) > 3:
+            h.append(z3.ULE(P[3], P[2]))
+        return h
+
+    def replay(m):
+        b = model_value(m, B)
+        pl = model_value(m, PL)
+        # natively at a small frame size: body 60 (frame 64), the model's payload scaled into range
+        probes = [(64, x) for x in (0, 1, 20, 30, 31, 32, 60, 61, 90, 120, 150)]
+        cmds = [f"split {fs} {n} 1" for fs, n in probes]
+
+        def bad(outs):
+            for (fs, n), js in zip(probes, outs):
+                if js.get("panic") or not js["payload_ok"]:
+                    return True
+                fr = js["frames"]
+                for i, f in enumerate(fr):
+                    last = i == len(fr) - 1
+                    if (not last and f["len"] != fs) or f["len"] > fs or f["more"] != (not last):
+                        return True
+                    if (i > 0 and (f["has_id"] or f["has_tag"] or f["has_fmt"])) or (i == 0 and not (f["has_id"] and f["has_tag"])):
+                        return True
+            return False
+
+        return cmds, bad
+
+    n = 0
+    for i, p in enumerate(paths):
+        if p.end.startswith("loop-bound"):
+            o.prove(f"path{i}:bound-of-4-frames-suffices", hyp + phyp() + p.cond, z3.BoolVal(False))
+            continue
+        if p.end != "return" or not isinstance(p.ret, mir.Agg):
+            continue
+        segs = p.locals["@world"]["segs"]
+        snaps = p.locals["@world"]["snaps"]
+        okd = p.ret.get("#d")
+        if okd is None or not segs:
+            continue
+        is_ok = okd == 0
+        H = hyp + phyp() + p.cond + [is_ok]
+        # frames
+        frames = []
+        cur = None
+        wellformed = True
+        for (kind, ln, gen) in segs:
+            if kind == "H":
+                cur = {"P": None, "D": None, "gen": None}
+                frames.append(cur)
+            elif cur is None or cur[kind] is not None:
+                wellformed = False
+            else:
+                cur[kind] = ln
+                if kind == "P":
+                    cur["gen"] = gen
+        wellformed = wellformed and all(f["P"] is not None and f["D"] is not None for f in frames)
+        n += 1
+        o.prove(f"path{i}:every-frame-is-header+performative+payload", H, z3.BoolVal(wellformed), replay=replay)
+        if not wellformed:
+            continue
+        total = z3.BitVecVal(0, 64)
+        for j, f in enumerate(frames):
+            last = j == len(frames) - 1
+            size = f["P"] + f["D"]
+            if last:
+                o.prove(f"path{i}:frame{j}(last)<=frame-size", H, z3.ULE(size, B), replay=replay)
+            else:
+                o.prove(f"path{i}:frame{j}-exactly-frame-size", H, size == B, replay=replay)
+            total = total + f["D"]
+            snap = snaps[f["gen"]] if f["gen"] is not None and f["gen"] < len(snaps) else None
+            if snap is None:
+                o.prove(f"path{i}:frame{j}-performative-known", H, z3.BoolVal(False))
+                continue
+            o.prove(f"path{i}:frame{j}-more-flag", H, snap["more"] == (orig_more if last else z3.BoolVal(True)), replay=replay)
+            for fld in opt:
+                want = opt[fld] if j == 0 else z3.BitVecVal(0, 64)
+                o.prove(f"path{i}:frame{j}-{fld}", H, snap[fld] == want, replay=replay)
+        o.prove(f"path{i}:chunks-add-up-to-the-payload", H, total == PL, replay=replay)
+        for (d, ok, c) in p.obligations:
+            o.prove(f"path{i}:{d}", hyp + phyp() + c, ok, replay=replay)
+    o.cover("multi-frame path exists", [z3.BoolVal(n > 1)])
+    return [o]
+
+
+REGISTRY.setdefault("C06", []).append(c06_transfer_split)
